@@ -71,6 +71,33 @@ Proof.
 Qed.
 Print Assumptions C17_pqm_quantum.
 
+(* measurement statistics of the quantum-pattern variant, pointwise in the (pattern, memory) basis state:
+   P(aux = 0, pattern = p, memory = k) = |a_{p,k}|^2 cos^2(pi d(p,k)/2n), and the joint (pattern, memory) marginal
+   is unchanged *)
+Theorem C17_probabilities_quantum : forall (pq mq : nat -> nat) (xq n : nat),
+  (forall k, pq k <> xq) -> (forall k k', pq k <> mq k') ->
+  (forall i j, mq i = mq j -> i = j) -> (forall i, mq i <> xq) -> (0 < n)%nat ->
+  forall (psi : state) (b : asg),
+  (forall b', psi (upd b' xq true) = 0) ->
+  let pat := pat0 n (fun k => get b (pq k)) in
+  let a := PI / (2 * INR n) in
+  let d := INR (dist mq (fun k => nth k pat false) n b) in
+  let out := prun (pqm_gates_q n pq mq xq) psi in
+  (Cmod (out (upd b xq false)))² = (cos (a * d))² * (Cmod (psi (upd b xq false)))² /\
+  (Cmod (out (upd b xq false)))² + (Cmod (out (upd b xq true)))² = (Cmod (psi (upd b xq false)))².
+Proof.
+  intros pq mq xq n Hpx Hpm Hinj Hmx Hn psi b Hpsi pat a d out.
+  destruct (C17_pqm_quantum pq mq xq n Hpx Hpm Hinj Hmx Hn psi b Hpsi) as [E0 E1].
+  fold pat a d out in E0, E1. rewrite E0, E1, !Cmod_mult.
+  assert (C0 : (Cmod (RtoC (cos (a * d))))² = (cos (a * d))²).
+  { rewrite Cmod_R. unfold Rsqr. rewrite <- Rabs_mult. apply Rabs_pos_eq. apply Rle_0_sqr. }
+  assert (C1 : (Cmod (0, - sin (a * d)))² = (sin (a * d))²).
+  { unfold Cmod. rewrite Rsqr_sqrt; simpl. unfold Rsqr. ring. nra. }
+  rewrite !Rsqr_mult, C0, C1. split; [reflexivity|].
+  pose proof (sin2_cos2 (a * d)). nra.
+Qed.
+Print Assumptions C17_probabilities_quantum.
+
 (* non-vacuity: memory qubits 0..n-1, auxiliary n, satisfy the placement hypotheses *)
 Example ex_placement : (forall i j : nat, i = j -> i = j) /\ (forall n i : nat, (i < n)%nat -> i <> n).
 Proof. split; intros; lia. Qed.
